@@ -28,7 +28,7 @@ def one(name):
 
 def main():
     jobs = int(sys.argv[1]) if len(sys.argv) > 1 else 2
-    names = sorted(n for n in os.listdir(os.path.join(V, "seeded")) if os.path.isdir(os.path.join(V, "seeded", n)),
+    names = sorted((n for n in os.listdir(os.path.join(V, "seeded")) if os.path.isdir(os.path.join(V, "seeded", n))),
                    key=lambda s: [int(x) if x.isdigit() else x for x in re.split(r"(\d+)", s)])
     res = {}
     with cf.ThreadPoolExecutor(jobs) as ex:
